@@ -1625,7 +1625,9 @@ def plan_c15(tier, seed):
             seen.add((mname, tuple(pres)))
             single = len(pres) == 1
             nested_default = "all" if size == "small" else "none"
-            var = Variation(present={schema.name: pres}, default_present=nested_default, intclass=(1 if single else 0), maxlen=16, seed=seed)
+            # integers are small constants here: a symbolic integer decoded and re-encoded makes the encoder's write position
+            # symbolic (c15_de_en_gi_only_firmware_version: no answer in 30 min); integer round trips are C03's and C12's subject
+            var = Variation(present={schema.name: pres}, default_present=nested_default, intclass=0, maxlen=16, seed=seed)
             add(_roundtrip_de_en("c15_de_en_%s_%s" % (tag, mname), "C15", schema, var,
                                  "%s (%s): canonical bytes -> decode -> encode reproduces the bytes" % (tag, ",".join(pres) or "no optional member")),
                 configs="all" if mname in ("none", "full") else "rich")
